@@ -3,7 +3,7 @@
 # do a full .vo build of the Coq development.
 set -e
 cd "$(dirname "$0")"
-mkdir -p .work evidence replays
+mkdir -p .work evidence replays coq/Gen
 python3 harness/py2coq.py coq/Gen/Generated.v || true
 cd coq
 coq_makefile -f _CoqProject -o Makefile > /dev/null
